@@ -56,6 +56,12 @@ func main() {
 		}
 	}
 
+	// what an earlier run of this check, tier and seed kept (replays of its violations) is not this run's: remove it,
+	// unless this run re-validates a stored trace (which may be one of them)
+	if ctx.ReplayDir == "" {
+		_ = os.RemoveAll(ctx.OutDir)
+	}
+
 	func() {
 		defer func() {
 			if r := recover(); r != nil {
